@@ -34,6 +34,8 @@ def run_one(diff):
             for pr in props:
                 env = dict(os.environ, VERIF_REPO=d + "/repo")
                 r = subprocess.run([V + "/check", pr, "--unit", u, "--no-evidence"], cwd=V, env=env, capture_output=True, text=True)
+                if r.returncode == 2 and "zero obligations generated" in r.stdout and "no unit serves" not in r.stdout:
+                    continue    # a thorough-tier unit asked for in the quick tier: nothing to run
                 if r.returncode != 0:
                     first = [l for l in r.stdout.split("\n") if l.startswith(("VIOLATION", "INFRA", "  failed"))][:2]
                     notes.append(f"{pr}/{u}:exit{r.returncode} " + " | ".join(x[:160] for x in first))
